@@ -348,7 +348,10 @@ func writeReplay(e *vc.Engine, prop, dir string, r vc.Result, scratch string) (s
 	if len(name) > 150 {
 		name = name[:150]
 	}
-	rp, ok := vc.TryReplay(e, r, dir, name, scratch)
+	rp, ok := "", false
+	if os.Getenv("GOVC_NOREPLAY") == "" { // selftest/canaries.sh only asks whether the obligation fails
+		rp, ok = vc.TryReplay(e, r, dir, name, scratch)
+	}
 	if ok {
 		return rp, true
 	}
